@@ -32,7 +32,8 @@ def list_units():
             "tbb_seam": {"props": ["C08"], "tier": "quick", "doc": run_tbb_seam.__doc__},
             "hash_serde_derive": {"props": ["C14"], "tier": "quick", "doc": run_hash_serde_derive.__doc__},
             "c_functional_text": {"props": ["C06"], "tier": "quick", "doc": run_c_functional_text.__doc__},
-            "zeroize_volatile": {"props": ["C17"], "tier": "quick", "doc": run_zeroize_volatile.__doc__}}
+            "zeroize_volatile": {"props": ["C17"], "tier": "quick", "doc": run_zeroize_volatile.__doc__},
+            "asm_abi": {"props": ["C07"], "tier": "quick", "doc": run_asm_abi.__doc__}}
 
 
 def _sha(path):
@@ -618,6 +619,48 @@ def run_hash_serde_derive():
     return res
 
 
+def run_asm_abi(only=None):
+    """bounded: every assembly file this machine can assemble and run, through the calling-convention harness"""
+    import asm_abi
+    res = new_result("guard:asm_abi", "guard", level="bounded")
+    res["cmd"] = "lib/asm_abi.py: clang abi_driver.c abi_call.S <one .S file> blake3_portable.c; run"
+    res["trusted_base"] = ["lib/abi_driver/abi_call.S (trampoline: patterns in all callee-saved registers, checked after "
+                           "return), clang's assembler, this CPU", "bounded: finitely many calls per kernel (lib/asm_abi.py)"]
+    ran = 0
+    for isa in asm_abi.ISAS:
+        for win in (False, True):
+            rel = asm_abi.file_of(isa, win)
+            if only and rel not in only:
+                continue
+            if not os.path.exists(os.path.join(common.REPO, rel)):
+                res["undecided_reason"] = "assembly file %s not found" % rel
+                continue
+            r = asm_abi.run_one(isa, win)
+            res["bounded"].append("%s: %s %s" % (rel, r["status"], "; ".join(r["lines"])[:200]))
+            if r["status"] == "fail":
+                fo = failed_obligation("blake3_hash_many", "other",
+                                       "assembly file %s: %s" % (rel, "; ".join(r["lines"][:3])[:400]), location=rel,
+                                       clause="callee-saved registers, direction flag, output frame and result of every "
+                                              "kernel of the file (calling convention: %s)" % ("Win64" if win else "System V"))
+                fo["found"] = {"scenario": {"kind": "asm_abi", "isa": isa, "win": win}, "observed": r["lines"][:10],
+                               "family": "asm_abi", "field": r["lines"][0] if r["lines"] else None}
+                fo["found_from"] = "asm_abi"
+                res["failed"].append(fo)
+            elif r["status"] == "pass":
+                ran += 1
+            elif r["status"] == "error":
+                res["undecided_reason"] = "harness build failed for %s: %s" % (rel, r["lines"][-1][-300:])
+    res["samples"] = res["bounded"][:3]
+    if res["failed"]:
+        res["status"] = "fail"
+        res["undecided_reason"] = None
+    elif ran and not res.get("undecided_reason"):
+        res["status"] = "pass"
+    elif not ran and not res.get("undecided_reason"):
+        res["undecided_reason"] = "no assembly file could be run on this CPU"
+    return res
+
+
 def run_unit(name, tier="quick"):
     if name == "zeroize_volatile":
         return run_zeroize_volatile()
@@ -635,6 +678,8 @@ def run_unit(name, tier="quick"):
         return run_rust_statics()
     if name == "c_cache_single_store":
         return run_c_cache_single_store()
+    if name == "asm_abi":
+        return run_asm_abi()
     if name not in ("kernels", "kernels_frames"):
         raise KeyError(name)
     res = new_result("guard:" + name, "guard", level="other")
@@ -686,7 +731,39 @@ def run_unit(name, tier="quick"):
     prop = "C07" if name == "kernels_frames" else "C04"
     complete = True
     res["level"] = "bounded"
+    import asm_abi
     for fo in res.pop("suspect", []):
+        rel = fo.get("location") or ""
+        b = os.path.basename(rel)
+        if b.endswith("_windows_msvc.asm"):
+            # MASM syntax: nothing here can assemble it; no build flavour of this machine reaches it
+            res["bounded"].append("%s changed: cannot be assembled or run here (MASM syntax)" % rel)
+            res["undecided_reason"] = ("assumed kernel source %s changed and nothing on this machine can assemble or run it"
+                                       % rel)
+            complete = False
+            continue
+        if asm_abi.classify(rel):
+            isa, win = asm_abi.classify(rel)
+            r = asm_abi.run_one(isa, win)
+            res["bounded"].append("%s changed: calling-convention / frame / result harness: %s %s"
+                                  % (rel, r["status"], "; ".join(r["lines"])[:200]))
+            if r["status"] == "fail":
+                fo2 = dict(fo)
+                fo2["function"] = "blake3_hash_many" if name == "kernels_frames" else fo["function"]
+                fo2["message"] = "changed assembly file %s: %s" % (rel, "; ".join(r["lines"][:3])[:400])
+                fo2["clause"] = ("callee-saved registers, direction flag, output frame and result of every kernel of the "
+                                 "file (calling convention: %s)" % ("Win64" if win else "System V"))
+                fo2["found"] = {"scenario": {"kind": "asm_abi", "isa": isa, "win": win}, "observed": r["lines"][:10],
+                                "family": "asm_abi", "field": r["lines"][0] if r["lines"] else None}
+                fo2["found_from"] = "asm_abi"
+                fo2.pop("search", None)
+                res["failed"].append(fo2)
+                break
+            if r["status"] != "pass":
+                complete = False
+                res["undecided_reason"] = "changed assembly file %s could not be run here (%s)" % (rel, r["status"])
+            if win:
+                continue      # no build flavour of this machine links the Windows file: the harness is all there is
         if fo.get("search") == "c_api":
             import search_c
             hit = search_c.find(prop, fo, seed, deadline=time.time() + 420)
